@@ -215,7 +215,7 @@ fn main() {
     main_with("c19", "exploration", |run: &Run| {
         run.set_rule(
             "Triangles: every ordered vertex triple on a GxG grid (exhaustive, including colinear and coincident vertices) at shifted positions, plus random triples +-100; for each: interior coverage, 1-px band, all 6 vertex orders, 1-px outline = three Lines. \
-             Shared edges: all quadruples (a,b,c,d) on a QxQ grid with c, d on opposite sides of a-b (exhaustive) plus random. Polylines: 0..=6 vertices incl. repeated vertices and reversals, translated and untranslated. \
+             Shared edges: all quadruples (a,b,c,d) on a QxQ grid with c, d on opposite sides of a-b (exhaustive) plus random. Polylines: 0..=6 vertices (1 in 8: 7..=14) incl. repeated vertices and reversals, translated and untranslated. \
              Non-trivial = non-degenerate triangle / valid opposite-side pair / polyline with >= 2 points; distinct = distinct vertex tuples.",
         );
         let g = run.tier(7u64, 12u64);
@@ -255,7 +255,8 @@ fn main() {
         });
         let np = run.tier(100_000u64, 30_000_000u64);
         run.generate("polylines", np, false, 0.2, |ctx, _idx, rng| {
-            let n = rng.usizer(0, 6);
+            // 0..=6 vertices (the statement's range), occasionally longer ones
+            let n = if rng.chance(1, 8) { rng.usizer(7, 14) } else { rng.usizer(0, 6) };
             let mut v: Vec<Point> = Vec::new();
             let mut cur = Point::new(rng.i32r(-30, 30), rng.i32r(-30, 30));
             for _ in 0..n {
